@@ -195,7 +195,7 @@ def inline_programs(rnd, n):
 def fam_m2v(rnd):
     """functions with allocas: promoted in straight-line code, in a loop, read back by `return`; not promotable because the
     address is passed to a call / stored / offset"""
-    kind = rnd.choice(["straight", "loop", "return", "escape_call", "escape_store", "offset", "two", "size64"])
+    kind = rnd.choice(["straight", "loop", "return", "escape_call", "escape_store", "escape_retsize", "offset", "two", "size64"])
     c = str(rnd.randrange(1, 1000))
     if kind == "straight":
         b = [("main", [T("calldataload", ["%x"], "0"), T("alloca", ["%p"], "32"), T("mstore", [], "%x", "%p"), T("mload", ["%y"], "%p"),
@@ -218,6 +218,10 @@ def fam_m2v(rnd):
     elif kind == "escape_store":
         b = [("main", [T("calldataload", ["%x"], "0"), T("alloca", ["%p"], "32"), T("alloca", ["%q"], "32"), T("mstore", [], "%x", "%p"),
                        T("mstore", [], "%p", "%q"), T("mload", ["%a"], "%q"), T("mload", ["%y"], "%a"), T("sstore", [], "%y", "0"), T("stop", [])])]
+    elif kind == "escape_retsize":
+        # the pointer is the SIZE operand of a return (regression for C14I:mem2var-pointer-stored-as-value)
+        b = [("main", [T("calldataload", ["%x"], "0"), T("alloca", ["%p"], "32"), T("mstore", [], "%x", "%p"), T("mload", ["%y"], "%p"),
+                       T("sstore", [], "%y", "0"), T("return", [], "%p", "0")])]
     elif kind == "offset":
         b = [("main", [T("calldataload", ["%x"], "0"), T("alloca", ["%p"], "64"), T("mstore", [], "%x", "%p"), T("add", ["%p2"], "%p", "32"),
                        T("mstore", [], c, "%p2"), T("mload", ["%y"], "%p"), T("mload", ["%z"], "%p2"), T("add", ["%w"], "%y", "%z"),
